@@ -207,6 +207,112 @@ def read_case(run, kind, m, exception=False):
     return ok
 
 
+def read_history(run, kind, steps):
+    """part D: a history of transactions on one or two client objects of one process (state must not leak between requests or
+    between clients).  steps: [{'m': request, 'reply': 'normal' | 'exception' | 'silent', 'client': 0 | 1}]"""
+    case = {'part': 'history', 'client': kind, 'steps': steps}
+    framing = IO.framing_of(kind)
+    script = [{'kind': 'exception', 'code': 2} if st['reply'] == 'exception' else {'kind': 'none'} if st['reply'] == 'silent' else {'kind': 'own'} for st in steps]
+    peer = P.ScriptedPeer(framing, script=script, timeout=1.0)
+    env = IO.Env(peer)
+    unit = 17
+    repo.reset_globals()
+    ok = True
+    silent_units = {}                 # client index -> the unit stayed silent in that client's previous transaction
+    with IO.installed(env):
+        clients = {}
+        for k, st in enumerate(steps):
+            ci = st.get('client', 0)
+            if ci not in clients:
+                clients[ci] = IO.make_client(kind, timeout=1.0)
+                clients[ci].connect()
+            client = clients[ci]
+            m = st['m']
+            i0, t0, e0 = len(env.trace), env.clock.now, len(peer.events)
+            try:
+                result = client.execute(A.build(m, unit=unit))
+            except IO.StepWatchdog as e:
+                run.violation('history-unbounded:%s' % kind, case, 'step %d: %r' % (k, e))
+                return False
+            except Exception as e:  # noqa
+                run.violation('history-raised:%s:%s' % (kind, type(e).__name__), case, 'step %d: %r' % (k, e))
+                return False
+            elapsed = env.clock.now - t0
+            tr = env.trace[i0:]
+            run.count('history_transactions')
+            after_silence = silent_units.get(ci, False)
+            silent_units[ci] = st['reply'] == 'silent'
+            if st['reply'] == 'silent':
+                continue
+            if len(peer.events) <= e0:
+                run.violation('history-no-request:%s' % kind, case, 'step %d: the reference server did not recognise the request' % k)
+                return False
+            sent = peer.events[e0][3] if st['reply'] == 'normal' else ADU.build(framing, unit, bytes([S.encode(m)[0] | 0x80, 2]))
+            wis = [i for i, e in enumerate(tr) if e[1] == 'write']
+            reads = [e[2] for e in tr[wis[-1] + 1:] if e[1] == 'read'] if wis else []
+            conn = [c for c in env.conns if not c.closed][-1] if env.conns else None
+            why = None
+            got = sum(r for r in reads if r and r > 0)
+            if got != len(sent):
+                why = 'read sizes %r sum to %d, reply frame is %d bytes' % (reads, got, len(sent))
+            elif elapsed >= 1.0:
+                why = 'the transaction consumed %.3f virtual seconds (a read waited out its timeout)' % elapsed
+            elif isinstance(result, Exception) or result is None or not hasattr(result, 'function_code'):
+                why = 'reply read completely but the call returned %r' % (result,)
+            elif (st['reply'] == 'exception') != (result.function_code >= 0x80):
+                why = 'returned %r' % (result,)
+            if framing == 'binary' and any(b in (0x7B, 0x7D) for b in sent[1:-1]):
+                run.region('binary-delimiter-in-body')
+                if why:
+                    run.known('binary-delimiter-in-body', 'binary client reads the un-escaped length; an escaped reply is longer', case)
+                    return False
+            if framing == 'rtu' and m['fc'] == 8 and len(m['data']) != 1:
+                continue
+            if why:
+                ok = False
+                if after_silence and st['reply'] == 'exception':
+                    run.region('full-read-after-silence-waits-on-exception-reply')
+                    if 'waited out' in why or 'read sizes' in why:
+                        run.known('full-read-after-silence-waits-on-exception-reply',
+                                  'after a transaction the unit did not answer, the client reads the predicted normal length in one go: an exception reply is shorter and the read waits out its timeout', case)
+                        return False
+                run.violation('history:%s:%s%s' % (kind, st['reply'], ':after-silence' if after_silence else ''), case, 'step %d (%s): %s' % (k, _short_m(m), why))
+                return False
+    return ok
+
+
+def _short_m(m):
+    return 'fc%d %s' % (m['fc'], {k: (v if not isinstance(v, list) else '%d values' % len(v)) for k, v in m.items() if k not in ('dir', 'fc')})
+
+
+def gen_history_steps(r, kind):
+    """6..9 steps: same function codes with changing quantities (FC23: same write count, different read counts), different
+    diagnostic sub-functions, an occasional silent or exception reply, sometimes a second client object"""
+    steps = []
+    two = r.random() < 0.4
+    wq = r.randint(1, 4)
+    for k in range(r.randint(6, 9)):
+        x = r.random()
+        if x < 0.3:
+            m = {'dir': REQ, 'fc': 23, 'read_address': r.randint(0, 50), 'read_count': r.choice([1, 2, 3, 8, 20, 60, 125]), 'write_address': r.randint(0, 50),
+                 'registers': [r.randrange(65536) for _ in range(wq)]}
+        elif x < 0.5:
+            m = {'dir': REQ, 'fc': r.choice([3, 4]), 'address': r.randint(0, 99), 'count': r.choice([1, 2, 5, 17, 64, 125])}
+        elif x < 0.65:
+            m = {'dir': REQ, 'fc': r.choice([1, 2]), 'address': r.randint(0, 99), 'count': r.choice([1, 7, 8, 9, 64, 1000, 2000])}
+        elif x < 0.8:
+            m = {'dir': REQ, 'fc': 8, 'sub': r.choice([0, 2, 10, 11, 12, 13, 14, 15, 16, 17, 18, 20]), 'data': [r.randrange(65536)]}
+        elif x < 0.9:
+            m = {'dir': REQ, 'fc': 16, 'address': r.randint(0, 99), 'registers': [r.randrange(65536) for _ in range(r.choice([1, 2, 30, 123]))]}
+        else:
+            m = {'dir': REQ, 'fc': r.choice([5, 6]), 'address': r.randint(0, 99), 'value': r.choice([0, 0xFF00])}
+        if m['fc'] == 8 and m['sub'] in (10,):
+            m['data'] = [0]
+        y = r.random()
+        steps.append({'m': m, 'reply': 'silent' if y < 0.12 else 'exception' if y < 0.35 else 'normal', 'client': (1 if two and r.random() < 0.5 else 0)})
+    return steps
+
+
 def run(run):
     r = run.rng('main')
     run.rule = ('part A: case = one request (every quantity 1..max of FC1-4,15,16,23, FC5/6, every diagnostic sub-function), prediction vs '
@@ -234,6 +340,16 @@ def run(run):
                     run.case(h64(('B', kind, m['fc'], m.get('sub'), q, exc)), True,
                              sample={'part': 'reads', 'client': kind, 'fc': m['fc'], 'quantity': q, 'exception_reply': exc, 'verdict': 'held' if ok else 'differs'},
                              sample_class=('B', kind, exc))
+    # part D: histories on one or two client objects (state must not leak from one transaction, or one client, into the next)
+    nh = run.scale(60, 6000)
+    for kind in ('rtu', 'ascii', 'binary'):
+        for i in range(nh):
+            steps = gen_history_steps(r, kind)
+            ok = read_history(run, kind, steps)
+            run.case(h64(('D', kind, repr(steps))), True,
+                     sample={'part': 'history', 'client': kind, 'steps': [(st['client'], st['m']['fc'], st['reply']) for st in steps], 'verdict': 'every reply read exactly' if ok else 'differs'},
+                     sample_class=('D', kind))
+    run.floor('history transactions', run.counters.get('history_transactions', 0), 800)
     if run.thorough:
         # part C: real client <-> real server over loopback with the serial framings: a prediction that is too short makes the
         # client stop before the checksum (error object), one that is too long makes it wait for its whole timeout
@@ -251,6 +367,10 @@ def replay(run, case):
         from . import loopclient
         case['layout']['units'] = {int(k): v for k, v in case['layout']['units'].items()}
         loopclient.one(run, case, 'C14')
+        return
+    if case.get('part') == 'history':
+        print('held' if read_history(run, case['client'], case['steps']) else 'differs')
+        run.evaluations += 1
         return
     m = case['m']
     if case['part'] == 'sizes':
